@@ -159,13 +159,14 @@ class C03System(BuilderSystem):
             for v in self.scalar_ladder(st, "feed-rate"):
                 ops += [["set_feed_rate", [v]], ["move", [], {"x": 1, "F": v}], ["rapid", [], {"y": 1, "f": v}],
                         ["probe", ["away"], {"z": 0, "F": v}], ["move_absolute", [], {"x": 2, "F": v}],
-                        ["rapid_absolute", [], {"x": 2, "F": v}]]
+                        ["rapid_absolute", [], {"x": 2, "F": v}],
+                        ["move", [], {"F": v}], ["rapid", [], {"F": v}]]          # a move that names no coordinate at all
         if "feed-rate" in fam:
             ops += [["set_feed_mode", ["1/time"]], ["set_feed_mode", ["units/min"]], ["set_length_units", ["in"]]]
         if "tool-power" in fam:
             for v in self.scalar_ladder(st, "tool-power"):
                 ops += [["set_tool_power", [v]], ["tool_on", ["clockwise", v]], ["power_on", ["dynamic", v]],
-                        ["move", [], {"x": 1, "S": v}], ["rapid", [], {"x": 2, "s": v}], ["probe", ["towards"], {"z": 0, "S": v}],
+                        ["move", [], {"x": 1, "S": v}], ["rapid", [], {"x": 2, "s": v}], ["probe", ["towards"], {"z": 0, "S": v}], ["move", [], {"S": v}],
                         ["move_absolute", [], {"y": 1, "S": v}]]
             ops += [["tool_off"], ["power_off"]]
         if "tool-number" in fam:
@@ -178,6 +179,9 @@ class C03System(BuilderSystem):
                 for v in self.scalar_ladder(st, name):
                     ops += [[f"set_{t}_temperature", [v]], ["halt", [f"wait-for-{t}"], {"S": v}],
                             ["halt", [f"wait-for-{t}"], {"R": v}], ["halt", [f"wait-for-{t}"], {"s": v}]]
+        if any(f"{t}-temperature" in fam for t in ("bed", "hotend", "chamber")):
+            # the limits are numbers in whatever temperature units are selected
+            ops += [["set_temperature_units", ["kelvin"]], ["set_temperature_units", ["celsius"]]]
         if self.hooks:
             for key, name in (("F", "feed-rate"), ("S", "tool-power")):
                 if name in fam:
@@ -311,7 +315,7 @@ class C03System(BuilderSystem):
         return (pt(g.position), str(g.distance_mode), tuple((rf(m.pos[a]) if m.known[a] else None) for a in ("X", "Y", "Z")),
                 m.relative, tuple(sorted((k, repr(v)) for k, v in st.bounds.items())), s.is_tool_active, s.tool_number,
                 rf(s.feed_rate), rf(s.tool_power), rf(s.target_bed_temperature), rf(s.target_hotend_temperature),
-                rf(s.target_chamber_temperature),
+                rf(s.target_chamber_temperature), str(s.temperature_units),
                 tuple(repr(s.get_bounds(n)) for n in sorted(st.bounds)))      # the limits the builder itself holds
 
     def outcome(self, st):
